@@ -7,6 +7,11 @@
 use crate::datamodel::Data;
 use crate::fsm::GlobalData;
 use std::collections::HashMap;
+#[cfg(feature = "Verif_Hooks")]
+use crate::verif_sync::{Mutex, MutexGuard};
+#[cfg(feature = "Verif_Hooks")]
+use std::sync::Arc;
+#[cfg(not(feature = "Verif_Hooks"))]
 use std::sync::{Arc, Mutex, MutexGuard};
 
 /// Trait to inject custom actions into the datamodel.
@@ -56,6 +61,7 @@ impl ActionWrapper {
         copy
     }
 
+    #[cfg_attr(feature = "Verif_Hooks", track_caller)]
     pub fn lock(&self) -> ActionLock {
         self.actions.lock().unwrap()
     }
